@@ -43,6 +43,14 @@ Definition pack_L (n : Z) : res (list Z) :=
   if (0 <=? n) && (n <=? 4294967295) then Ok (be32 n) else Crash StructErr.
 Definition unbe32 (a b c d : Z) : Z := ((a * 256 + b) * 256 + c) * 256 + d.
 
+(* socket options (nfc/llcp/__init__.py).  Every sender cuts its fragments by the value its socket
+   returns for SO_SNDMIU - the `miu` parameters of the client and server sections below *)
+Definition SO_SNDMIU : Z := 1.
+Definition SO_RCVMIU : Z := 2.
+Definition getsockopt (send_miu recv_miu opt : Z) : Z :=
+  if opt =? SO_SNDMIU then send_miu else if opt =? SO_RCVMIU then recv_miu else 0.
+Definition fragment_size_option : Z := SO_SNDMIU.
+
 (* what arrives at a waiting call site *)
 Inductive input :=
 | IMsg (m : list Z)      (* an information unit *)
